@@ -5,7 +5,7 @@ import c01
 class Property(c01.Property):
     prop = "C08"
     comp = "c08"
-    coq_targets = ["theories/Properties/C08.vo", "theories/Properties/C08v.vo"]
+    coq_targets = ["theories/Properties/C08.vo", "theories/Properties/C08v.vo", "theories/Read/LoopsEq.vo"]   # the reader model is tied to the regenerated loops by Read/LoopsEq.v
     theorems = []
     assumptions = [
         "heap exhaustion from eagerly pre-allocating a declared container length and stack exhaustion from the recursion of finish_processing are runtime facts the model cannot exhibit (recorded findings F3, F11); the harness observes them as aborts of a child process",
